@@ -26,6 +26,7 @@ from gens import hexs
 from props.common import TRUSTED_BASE, ASSUMPTIONS
 
 ID = "C13"
+FORMAT_GROUP = "sep"
 LEAN_MODULES = ["LexVerif.Props.C13"]
 GEN = []
 TRUSTED = TRUSTED_BASE + [
